@@ -28,6 +28,7 @@ class UnusedTranslator:
         self.output_predicates = output_predicates
         self.used_positions: dict[Predicate, set[int]] = defaultdict(set)
         self.used: set[Predicate] = set()
+        self.classically_negated: set[Predicate] = set()
         self._anon = Variable(LOC, "_")
         self.new_names: dict[tuple[Predicate, Predicate], str] = {}
 
@@ -114,6 +115,21 @@ class UnusedTranslator:
         for pred in chain(self.input_predicates, self.output_predicates):
             self.used.add(pred)
             self.used_positions[pred].update(range(0, pred.arity))
+
+        # p and -p are linked by the implicit constraint `:- p(X), -p(X).`, keep both as they are
+        self.classically_negated = set()
+        for stm in prg:
+            for atom in collect_ast(stm, "SymbolicAtom"):
+                if atom.symbol.ast_type != ASTType.UnaryOperation:
+                    continue
+                symbol = atom.symbol
+                while symbol.ast_type == ASTType.UnaryOperation:
+                    symbol = symbol.argument
+                if symbol.ast_type == ASTType.Function:
+                    pred = Predicate(symbol.name, len(symbol.arguments))
+                    self.classically_negated.add(pred)
+                    self.used.add(pred)
+                    self.used_positions[pred].update(range(0, pred.arity))
 
     def _new_name(self, orig_pred: Predicate, new_pred: Predicate) -> str:
         key = (orig_pred, new_pred)
@@ -225,7 +241,7 @@ class UnusedTranslator:
         rd = RuleDependency(prg)
 
         for head in rd.get_headderivable_predicates():
-            if head in self.input_predicates or head in self.output_predicates:
+            if head in self.input_predicates or head in self.output_predicates or head in self.classically_negated:
                 continue
 
             rules = rd.get_rules_that_derive(head)
